@@ -10,7 +10,7 @@
    [Forall3]: the relation holds segment by segment.                                         *)
 From Coq Require Import String ZArith Reals List.
 From FF Require Import Base.Ops Inst.RInst Base.RAlg Spec.Kron2 Spec.DigitPerm Model.Numeric Model.Remap Model.Extend
-     Model.Tie.C05 Proofs.RemapIdx Proofs.RemapCov Proofs.Remap Proofs.ExtendKron Proofs.ExtendKron2 Proofs.Extend Proofs.Extend2 Proofs.Extend3 Proofs.ExtendPlace Proofs.PauliProd Proofs.PauliEx Proofs.ExtendEx.
+     Model.Tie.C05 Proofs.RemapIdx Proofs.RemapCov Proofs.Remap Proofs.ExtendKron Proofs.ExtendKron2 Proofs.Extend Proofs.Extend2 Proofs.Extend3 Proofs.ExtendDischarged Proofs.ExtendPlace Proofs.PauliProd Proofs.PauliEx Proofs.ExtendEx.
 (* the comparison functions of the correspondence check are built with this file's dependency cone *)
 From FF Require Corr.RemapObs Corr.ExtendObs.
 From FF Require Model.Tensor Spec.Kron Proofs.TensorTranspose Proofs.KronBridge Properties.C16.
@@ -179,6 +179,85 @@ Theorem C05_two_block_filter_function : forall (d1 d2 K1 K2 na1 na2 : nat) (basi
   a3get RO (Numeric.filter_function RO (na1 + na2) (K1 * K2) (length omega) (cm12 d1 d2 basis ns thr evs Vs omega nc dts)) a b o.
 Proof. exact two_block_filter_function. Qed.
 Print Assumptions C05_two_block_filter_function.
+
+(* --- DISCHARGED versions: the helper hypotheses [krel] are replaced by "the matrix is what util.tensor / tensor_insert /
+       tensor_merge -- the C16 model Model/Tensor.v at complex entries, tied to the source by Model/Tie/C16.v -- returns
+       on these arguments" ([is_tensor_pair], [is_insert_end], [is_merge_end]; bridge: Proofs/KronBridgeC.v by agent-c16).
+       Remaining hypotheses: eigenvalue vectors are the sums a_i + b_j ([evrel]; a rank-1 tensor of ones, no helper
+       statement), the bases are orthonormal products (C05_pauli_product / _onb / _first), eigh validity (unitarity),
+       cache consistency of the inputs (B1, B2) --- *)
+Theorem C05_two_block_control_matrix_discharged : forall (dq nA nB K1 K2 na1 na2 : nat) (basis1 basis2 basis ns1 ns2 ns : list Mat),
+  0 < dq -> 1 <= nA -> 1 <= nB ->
+  length basis1 = K1 -> length basis2 = K2 -> length basis = K1 * K2 ->
+  (forall k l, k < K1 -> l < K2 -> is_tensor_pair (dq ^ nA) (dq ^ nB) (nthm basis1 k) (nthm basis2 l) (nthm basis (k * K2 + l))) ->
+  (forall l m, l < K1 -> m < K1 -> mtrprod RO (dq ^ nA) (madj RO (dq ^ nA) (nthm basis1 l)) (nthm basis1 m) = (if Nat.eqb l m then 1c else 0c)) ->
+  (forall l m, l < K2 -> m < K2 -> mtrprod RO (dq ^ nB) (madj RO (dq ^ nB) (nthm basis2 l)) (nthm basis2 m) = (if Nat.eqb l m then 1c else 0c)) ->
+  0 < K1 -> 0 < K2 ->
+  feq (dq ^ nA) (toF (nthm basis1 0)) (fscal (cofr RO (Rinv (sqrt (INR (dq ^ nA))))) fid) ->
+  feq (dq ^ nB) (toF (nthm basis2 0)) (fscal (cofr RO (Rinv (sqrt (INR (dq ^ nB))))) fid) ->
+  length ns1 = na1 -> length ns2 = na2 -> length ns = na1 + na2 ->
+  (forall a, a < na1 -> is_tensor_pair (dq ^ nA) (dq ^ nB) (nthm ns1 a) (mid RO (dq ^ nB)) (nthm ns a)) ->
+  (forall b, b < na2 -> is_tensor_pair (dq ^ nA) (dq ^ nB) (mid RO (dq ^ nA)) (nthm ns2 b) (nthm ns (na1 + b))) ->
+  forall (thr : R) (evs1 evs2 evs : list (list R)) (Vs1 Vs2 Vs : list Mat) (omega : list R)
+    (nc1 nc2 nc : list (list R)) (dts : list R),
+  Forall3 (evrel (dq ^ nA) (dq ^ nB)) evs1 evs2 evs -> Forall3 (is_merge_end dq nA nB) Vs1 Vs2 Vs ->
+  Forall (fun V : Mat => funitary (dq ^ nA) (toF V)) Vs1 -> Forall (fun V : Mat => funitary (dq ^ nB) (toF V)) Vs2 ->
+  length nc1 = na1 -> length nc2 = na2 -> length nc = na1 + na2 ->
+  (forall a, a < na1 -> nth a nc [] = nth a nc1 []) -> (forall b, b < na2 -> nth (na1 + b) nc [] = nth b nc2 []) ->
+  forall B1 B2 : Arr3,
+  a3eq_cm na1 K1 (length omega) B1 (cm1 (dq ^ nA) basis1 ns1 thr evs1 Vs1 omega nc1 dts) ->
+  a3eq_cm na2 K2 (length omega) B2 (cm2 (dq ^ nB) basis2 ns2 thr evs2 Vs2 omega nc2 dts) ->
+  forall a kk o, a < na1 + na2 -> kk < K1 * K2 -> o < length omega ->
+  a3get RO (assemble_cm RO (na1 + na2) (K1 * K2) (length omega) (two_blocks (dq ^ nA) (dq ^ nB) K1 K2 na1 na2 B1 B2)) a kk o =
+  a3get RO (cm12 (dq ^ nA) (dq ^ nB) basis ns thr evs Vs omega nc dts) a kk o.
+Proof. exact two_block_control_matrix_discharged. Qed.
+Theorem C05_two_block_filter_function_discharged : forall (dq nA nB K1 K2 na1 na2 : nat) (basis1 basis2 basis ns1 ns2 ns : list Mat),
+  0 < dq -> 1 <= nA -> 1 <= nB ->
+  length basis1 = K1 -> length basis2 = K2 -> length basis = K1 * K2 ->
+  (forall k l, k < K1 -> l < K2 -> is_tensor_pair (dq ^ nA) (dq ^ nB) (nthm basis1 k) (nthm basis2 l) (nthm basis (k * K2 + l))) ->
+  (forall l m, l < K1 -> m < K1 -> mtrprod RO (dq ^ nA) (madj RO (dq ^ nA) (nthm basis1 l)) (nthm basis1 m) = (if Nat.eqb l m then 1c else 0c)) ->
+  (forall l m, l < K2 -> m < K2 -> mtrprod RO (dq ^ nB) (madj RO (dq ^ nB) (nthm basis2 l)) (nthm basis2 m) = (if Nat.eqb l m then 1c else 0c)) ->
+  0 < K1 -> 0 < K2 ->
+  feq (dq ^ nA) (toF (nthm basis1 0)) (fscal (cofr RO (Rinv (sqrt (INR (dq ^ nA))))) fid) ->
+  feq (dq ^ nB) (toF (nthm basis2 0)) (fscal (cofr RO (Rinv (sqrt (INR (dq ^ nB))))) fid) ->
+  length ns1 = na1 -> length ns2 = na2 -> length ns = na1 + na2 ->
+  (forall a, a < na1 -> is_tensor_pair (dq ^ nA) (dq ^ nB) (nthm ns1 a) (mid RO (dq ^ nB)) (nthm ns a)) ->
+  (forall b, b < na2 -> is_tensor_pair (dq ^ nA) (dq ^ nB) (mid RO (dq ^ nA)) (nthm ns2 b) (nthm ns (na1 + b))) ->
+  forall (thr : R) (evs1 evs2 evs : list (list R)) (Vs1 Vs2 Vs : list Mat) (omega : list R)
+    (nc1 nc2 nc : list (list R)) (dts : list R),
+  Forall3 (evrel (dq ^ nA) (dq ^ nB)) evs1 evs2 evs -> Forall3 (is_merge_end dq nA nB) Vs1 Vs2 Vs ->
+  Forall (fun V : Mat => funitary (dq ^ nA) (toF V)) Vs1 -> Forall (fun V : Mat => funitary (dq ^ nB) (toF V)) Vs2 ->
+  length nc1 = na1 -> length nc2 = na2 -> length nc = na1 + na2 ->
+  (forall a, a < na1 -> nth a nc [] = nth a nc1 []) -> (forall b, b < na2 -> nth (na1 + b) nc [] = nth b nc2 []) ->
+  forall B1 B2 : Arr3,
+  a3eq_cm na1 K1 (length omega) B1 (cm1 (dq ^ nA) basis1 ns1 thr evs1 Vs1 omega nc1 dts) ->
+  a3eq_cm na2 K2 (length omega) B2 (cm2 (dq ^ nB) basis2 ns2 thr evs2 Vs2 omega nc2 dts) ->
+  forall a b o, a < na1 + na2 -> b < na1 + na2 -> o < length omega ->
+  a3get RO (assemble_ff RO (na1 + na2) (K1 * K2) (length omega) (two_blocks (dq ^ nA) (dq ^ nB) K1 K2 na1 na2 B1 B2)) a b o =
+  a3get RO (Numeric.filter_function RO (na1 + na2) (K1 * K2) (length omega) (cm12 (dq ^ nA) (dq ^ nB) basis ns thr evs Vs omega nc dts)) a b o.
+Proof. exact two_block_filter_function_discharged. Qed.
+Print Assumptions C05_two_block_filter_function_discharged.
+Theorem C05_propagators_tensor_discharged : forall dq nA nB evs1 evs2 evs Vs1 Vs2 Vs dts, 0 < dq -> 1 <= nA -> 1 <= nB ->
+  Forall3 (evrel (dq ^ nA) (dq ^ nB)) evs1 evs2 evs -> Forall3 (is_merge_end dq nA nB) Vs1 Vs2 Vs ->
+  Forall3 (krel (dq ^ nA) (dq ^ nB)) (Numeric.propagators RO (dq ^ nA) evs1 Vs1 dts) (Numeric.propagators RO (dq ^ nB) evs2 Vs2 dts)
+          (Numeric.propagators RO (dq ^ nA * dq ^ nB) evs Vs dts).
+Proof. exact propagators_tensor_discharged. Qed.
+Theorem C05_cm_embed_discharged : forall d1 d2 ds K1 K2 na basis1 basis2 basis ns1 ns,
+  1 <= length ds -> Tensor.prodn ds = d1 -> 0 < d2 -> 0 < K2 ->
+  length basis1 = K1 -> length basis = K1 * K2 ->
+  (forall k l, k < K1 -> l < K2 -> is_tensor_pair d1 d2 (nthm basis1 k) (nthm basis2 l) (nthm basis (k * K2 + l))) ->
+  length ns1 = na -> length ns = na ->
+  (forall a, a < na -> is_insert_end d1 d2 ds (nthm ns1 a) (mid RO d2) (nthm ns a)) ->
+  (forall l m, l < K2 -> m < K2 -> mtrprod RO d2 (madj RO d2 (nthm basis2 l)) (nthm basis2 m) = if Nat.eqb l m then 1c else 0c) ->
+  feq d2 (toF (nthm basis2 0)) (fscal (cofr RO (Rinv (sqrt (INR d2)))) fid) ->
+  forall thr evs1 evs2 evs Vs1 Vs2 Vs omega nc dts,
+  Forall3 (evrel d1 d2) evs1 evs2 evs -> Forall3 (is_insert_end d1 d2 ds) Vs1 Vs2 Vs ->
+  Forall (fun V => funitary d2 (toF V)) Vs2 ->
+  let B1 := control_matrix_from_scratch RO d1 thr evs1 Vs1 (Numeric.propagators RO d1 evs1 Vs1 dts) omega basis1 ns1 nc dts (times RO dts) in
+  let Bm := control_matrix_from_scratch RO (d1 * d2) thr evs Vs (Numeric.propagators RO (d1 * d2) evs Vs dts) omega basis ns nc dts (times RO dts) in
+  forall a k l o, a < na -> k < K1 -> l < K2 -> o < length omega ->
+    a3get RO Bm a (k * K2 + l) o = if Nat.eqb l 0 then cmul' (cofr RO (sqrt (INR d2))) (a3get RO B1 a k o) else 0c.
+Proof. exact cm_embed_discharged. Qed.
 
 (* --- more than two blocks: seen from block j a register of any number of blocks is (before) (x) (block j) (x) (after);
        for noise operators 1 (x) B (x) 1 and a product basis C_k (x) D_l (x) E_m the from-scratch control matrix is
